@@ -941,23 +941,30 @@ func checkC19(c *Check) {
 
 	// ---- R6 the remote target is the only user and returns connections only from Close
 	c.Rule("R6", "pooled connections are taken only in connectionForDomain and given back only from remoteDelivery.Close", 1)
+	// (call sites are counted by source position: a helper the reference tree did not have is read in place in each of
+	// its callers; the terminal methods of the delivery – Close, and Abort / Commit, which end the delivery through
+	// it – are where a connection may go back)
 	okUsers := true
-	n := 0
+	gets, rets := map[token.Pos]bool{}, map[token.Pos]bool{}
+	retOwners := map[string]bool{"remote.(*remoteDelivery).Close": true, "remote.(*remoteDelivery).Abort": true, "remote.(*remoteDelivery).Commit": true}
 	for _, spk := range p.ServerPkgs() {
 		if spk.PkgPath == pk.PkgPath {
 			continue
 		}
 		p.AllFuncs([]*packagesPkg{spk}, func(fi *FuncInfo) {
+			if inlinedAwayNow[fi.Obj] {
+				return // judged where it is read in place
+			}
 			ast.Inspect(fi.Decl.Body, func(x ast.Node) bool {
 				if call, ok := x.(*ast.CallExpr); ok {
 					if isCall(fi.Info(), call, "~/"+poolRel+".P.Return") {
-						n++
-						if objName(fi) != "remote.(*remoteDelivery).Close" {
+						rets[call.Pos()] = true
+						if !retOwners[objName(fi)] {
 							okUsers = false
 						}
 					}
 					if isCall(fi.Info(), call, "~/"+poolRel+".P.Get") {
-						n++
+						gets[call.Pos()] = true
 						if objName(fi) != "remote.(*remoteDelivery).connectionForDomain" {
 							okUsers = false
 						}
@@ -966,6 +973,10 @@ func checkC19(c *Check) {
 				return true
 			})
 		})
+	}
+	n := 0
+	if len(gets) >= 1 && len(rets) >= 1 {
+		n = 2
 	}
 	c.Hold("R6", "pool:users", token.NoPos, okUsers && n == 2, "the pool is used from unexpected places (a connection could be shared by two deliveries)")
 
